@@ -54,6 +54,12 @@ def w_slim(ctx, rng, idx):
         ss = [int(rng.integers(1, 4)) for _ in range(d)]
     while int(np.prod(ss)) > 256:
         ss[int(np.argmax(ss))] -= 1
+    big = rng.random() < 0.12
+    if big:  # a few cells with many states (index arithmetic on state numbers beyond the small-integer range)
+        d = 2
+        ss = [int(rng.integers(10, 16)), int(rng.integers(2, 15))]
+        if rng.random() < 0.5:
+            ss.reverse()
     cyc = bool(rng.integers(0, 2))
     single = [rand_single(rng, ss[i]) for i in range(d)]
     two = [rand_two(rng, ss[i], ss[i + 1]) for i in range(d - 1)]
@@ -78,6 +84,14 @@ def w_slim(ctx, rng, idx):
         # a reduced model of the same system is built first with a coarse threshold (truncation effective: nothing is asserted on
         # it), then the exact one: what the coarse run leaves behind must not leak into the exact operator
         call('slim.slim_mme', slim.slim_mme, ss, single, two, prop=P, tags=['coarse_threshold_first'], threshold=float(10 ** rng.uniform(-3, -0.5)))
+    if big and rng.random() < 0.7:
+        # reaction tables with narrow integer state numbers (as read from an int8 / int16 file); reactions touching the top states
+        it = [np.int8, np.int16, np.int32][int(rng.integers(0, 3))]
+        for i in range(d):
+            single[i].append([ss[i] - 1, max(ss[i] - 2, 0), 1.3])
+        two[0].append([ss[0] - 1, max(ss[0] - 2, 0), ss[1] - 1, max(ss[1] - 2, 0), 0.7])
+        single = [[[it(r[0]), it(r[1]), r[2]] for r in cell] for cell in single]
+        two = [[[it(r[0]), it(r[1]), it(r[2]), it(r[3]), r[4]] for r in bond] for bond in two]
     if rng.random() < 0.2:  # reactions as tuples / with NumPy scalars, the state space as tuple or integer array
         single = [[tuple(r) if rng.random() < 0.5 else [np.int64(r[0]), np.int64(r[1]), np.float64(r[2])] for r in cell] for cell in single]
         ss = [tuple(ss), np.array(ss), [np.int64(x) for x in ss]][int(rng.integers(0, 3))]
